@@ -4,6 +4,8 @@ P=$1; D=$2; T=${3:-quick}
 cd /repo || exit 2
 if [ -n "$(git status --porcelain)" ]; then echo "repo not clean"; exit 2; fi
 git apply "$D" || { echo "patch does not apply"; exit 2; }
+cp /verif/evidence/$P.json /tmp/evidence_$P.keep 2>/dev/null
 cd /verif && timeout 1500 ./check $P --tier $T > /tmp/seed_$P.log 2>&1; rc=$?
+cp /tmp/evidence_$P.keep /verif/evidence/$P.json 2>/dev/null   # evidence files describe runs on the unchanged tree only
 cd /repo && git checkout -- . 
 echo "exit=$rc"; grep -E "VIOLATION|KNOWN-FINDING|FAILING INPUT|^\[" /tmp/seed_$P.log | cut -c1-400 | head -8
